@@ -87,6 +87,14 @@ class MySQLQueryBuilder(QueryBuilder):
                             value=value.get_sql(on_conflict_ctx),
                         )
                     )
+                elif self.alias is None:
+                    # no row alias given (INSERT ... AS alias): refer to the new row with VALUES(col)
+                    updates.append(
+                        "{field}=VALUES({value})".format(
+                            field=field.get_sql(on_conflict_ctx),
+                            value=field.get_sql(on_conflict_ctx),
+                        )
+                    )
                 else:
                     updates.append(
                         "{field}={alias}.{value}".format(
